@@ -116,7 +116,7 @@ def run(tier):
         groups_done += res["ngroups"]
         if job["tag"].startswith("overflow"):
             ov_expected = sm["expected_fatals"]
-        if sm["overflow"]:
+        if sm.get("overflow") or sm.get("aborted"):
             ck.exhaustive = False
         for v in res["viols"]:
             ck.violation("C07:%s:%s:%s" % (job["tag"].split("-")[0], v["label"], v.get("what", v.get("msg", v["viol"]))),
